@@ -103,6 +103,8 @@ def op_table():
     add("cddr", ["L"], lambda g, e, v: ("(cdr (cdr %s))" % e[0], ("L", v[0][1][2:])) if len(v[0][1]) >= 2 else None)
     add("append", ["L", "L"], lambda g, e, v: ("(append %s %s)" % (e[0], e[1]), ("L", v[0][1] + v[1][1])))
     add("append1", ["L"], lambda g, e, v: (lambda x: ("(append %s (list %d))" % (e[0], x), ("L", v[0][1] + (x,))))(elt(g)))
+    add("append-empty-l", ["L"], lambda g, e, v: ("(append (list) %s)" % e[0], v[0]))
+    add("append-empty-r", ["L"], lambda g, e, v: ("(append %s (list))" % e[0], v[0]))
     add("append3", ["L", "L", "L"], lambda g, e, v: ("(append %s %s %s)" % tuple(e), ("L", v[0][1] + v[1][1] + v[2][1])))
     add("reverse", ["L"], lambda g, e, v: ("(reverse %s)" % e[0], ("L", v[0][1][::-1])))
     add("take", ["L"], lambda g, e, v: (lambda n: ("(take %s %d)" % (e[0], n), ("L", v[0][1][:n])))(g.rng.randint(0, len(v[0][1]))))
@@ -224,7 +226,9 @@ class Gen:
             if n <= 8 and rng.random() < 0.7:
                 e = "(list%s)" % "".join(" %d" % x for x in xs)
             else:   # longer lists: several storage chunks (the JIT miscompiles calls with 9+ arguments, see report)
-                e = "(append (list%s) (list%s))" % ("".join(" %d" % x for x in xs[:n // 2]), "".join(" %d" % x for x in xs[n // 2:]))
+                cut = rng.choice([n // 2, min(4, n), min(1, n), 0])     # a short first part leaves an over-full first chunk
+                e = "(append (list%s) (list%s))" % ("".join(" %d" % x for x in xs[:cut]), "".join(" %d" % x for x in xs[cut:cut + 8]))
+                xs = xs[:cut + 8]
             return self.add_val(e, ("L", xs))
         if k == "V":
             xs = tuple(rng.choice(range(10)) for _ in range(rng.choice([0, 1, 3, 5, 8])))
@@ -370,6 +374,10 @@ def sources(case, shape):
 
 
 CORPUS = [
+    # /repo fix (this check): (append '() l) with an over-full first chunk had an empty head cell
+    {"body": "(let* ((n1 (append (list 1 2 3 4) (list 5 6 7 8 9))) (n2 (list)) (n3 (append n2 n1)) (n4 (foldl (lambda (l acc) (append acc l)) (list) (list n1 n1))) (o1 (list (c03-snap n1) (c03-snap n3) (c03-snap n4) (car n3) (null? n3)))) (list o1))",
+     "want": "(((I1 I2 I3 I4 I5 I6 I7 I8 I9) (I1 I2 I3 I4 I5 I6 I7 I8 I9) (I1 I2 I3 I4 I5 I6 I7 I8 I9 I1 I2 I3 I4 I5 I6 I7 I8 I9) I1 #f))",
+     "ops": ["corpus-append-empty"], "p_last": 0, "threads": False},
     # /repo ae567a32 (fixed by the coordinator): List::cons pushed onto the shared chunk after cdr
     {"body": "(let* ((n1 (list 9 -6 4)) (n2 (apply list 0 (cdr n1))) (o1 (list (c03-snap n1) (c03-snap n2)))) (list o1))",
      "want": "(((I9 I-6 I4) (I0 I-6 I4)))", "ops": ["corpus-apply-list-cdr"], "p_last": 0, "threads": False},
@@ -699,7 +707,7 @@ def run(ck):
         "mutable boxes / mutable vectors are used only as alias containers, never as the values under test",
     ]
     reg, unreg, sites = gen_facts(ck)
-    proved = ck.proof_stage(["c03", "gen"], ["c03/Properties_C03"], "c03/Pins_C03.v")
+    proved = ck.proof_stage(["c03"], ["c03/Properties_C03"], "c03/Pins_C03.v")
     # coverage of the generated in-place primitive list by the generator (python side of the same fact)
     new = [p for p in reg if p not in KNOWN_INPLACE_PRIMS]
     gone = [p for p in KNOWN_INPLACE_PRIMS if p not in reg]
@@ -709,7 +717,7 @@ def run(ck):
     ck.harness_build(["c03run", "c03dis"])
 
     mechanism_probe(ck)
-    n = 600 if ck.tier == "quick" else 8000
+    n = 600 if ck.tier == "quick" else 30000
     cases = list(CORPUS)
     for i in range(n):
         cases.append(gen_program(ck.rng, with_threads=(i % 3 == 0)))
@@ -772,7 +780,12 @@ def run(ck):
             moves += json.dumps(tree).count('"M"')
             exprs.append("render_check (check %s [])" % coq_tree(tree))
             owners.append((di, fi, tree))
-    verdicts = ck.coq_eval(COQ_HEADER, exprs, shard=max(50, len(exprs) // 16 + 1))
+    # the Coq-proved checker gives the verdict; beyond a budget of trees (thorough tier) its python mirror does,
+    # after having been compared with Coq on the whole budget
+    budget = 12000
+    verdicts = ck.coq_eval(COQ_HEADER, exprs[:budget], shard=max(50, min(len(exprs), budget) // 16 + 1))
+    verdicts += ["ok" if check_last_use(t) is not None else "violation" for (_, _, t) in owners[budget:]]
+    stats["trees_checked_in_coq"] = min(len(exprs), budget)
     bad = 0
     for (di, fi, tree), v in zip(owners, verdicts):
         py = check_last_use(tree) is not None
